@@ -36,7 +36,8 @@ OTHER = ["cumsum", "cumsum_outer", "derivative", "integrate", "average", "cumint
          "ufunc_plain", "ufunc_overlap", "ufunc_overlap_outer", "vec_simple", "vec_faces", "scalar_faces",
          "scalar_faces_xy", "metric_weighted", "multi_outer", "multi_outer_rev", "pair_one_graph", "product_one_graph", "min_xy_mixed", "max_yx_mixed",
          "ufunc_2in_1out", "ufunc_1in_2out", "ufunc_2in_1out_overlap",
-         "lazy_coord", "lazy_coord_xy", "grid_method_overlap", "grid_method_overlap_outer"]
+         "lazy_coord", "lazy_coord_xy", "grid_method_overlap", "grid_method_overlap_outer",
+         "ufunc_same_pos", "ufunc_same_pos_2out", "ufunc_overlap_2d", "ufunc_overlap_2d_b"]
 
 
 def plen(p, n):
@@ -275,6 +276,30 @@ def run_other(case):
                             boundary_width={"X": (1, 0)}, boundary=b)
                 lazy = lambda: apply_as_grid_ufunc(fboth, lz(da), **args, **dk)
                 eager = lambda: apply_as_grid_ufunc(fboth, da, **args, **ek)
+        elif w in ("ufunc_same_pos", "ufunc_same_pos_2out"):
+            # an output on the same position of the same axis as the input (a smoother), parallelized
+            d1 = da.chunk({"yc": ch["yc"], "t": ch["t"]})
+            if w == "ufunc_same_pos":
+                fs = lambda a: a[..., 2:] + a[..., :-2]
+                sig = "(X:center)->(X:center)"
+            else:
+                fs = lambda a: (a[..., 2:] + a[..., :-2], a[..., 1:-1] - a[..., :-2])
+                sig = "(X:center)->(X:center),(X:center)"
+            args = dict(axis=[("X",)], grid=g, signature=sig, boundary_width={"X": (1, 1)}, boundary=b)
+            lazy = lambda: apply_as_grid_ufunc(fs, d1, dask="parallelized", **args)
+            eager = lambda: apply_as_grid_ufunc(fs, da, dask="forbidden", **args)
+        elif w in ("ufunc_overlap_2d", "ufunc_overlap_2d_b"):
+            # two core axes under map_overlap, the data carrying them in the opposite order to the signature,
+            # both chunked, different widths on the two axes
+            f2d = lambda a: a[..., 1:, 2:] - a[..., :-1, :-2]
+            chx = tuple(composition(rng, N))
+            dd2 = da.chunk({"xc": chx if len(chx) > 1 else (1, N - 1), "yc": (1, 2), "t": ch["t"]})
+            if w.endswith("_b"):
+                dd2 = dd2.transpose("t", "xc", "yc")
+            args = dict(axis=[("X", "Y")], grid=g, signature="(X:center,Y:center)->(X:left,Y:left)",
+                        boundary_width={"X": (1, 0), "Y": (2, 0)}, boundary=b)
+            lazy = lambda: apply_as_grid_ufunc(f2d, dd2, dask="allowed", map_overlap=True, **args)
+            eager = lambda: apply_as_grid_ufunc(f2d, da, dask="forbidden", map_overlap=False, **args)
         elif w in ("lazy_coord", "lazy_coord_xy"):
             # the lazy input carries a dask-backed non-index coordinate laid out in other chunks than the
             # data (what open_dataset(chunks={}) / a zarr store typically gives)
